@@ -806,19 +806,22 @@ def eval_seeded(case):
         findings.append(("seed:state-is-function-of-seed", "seed-state:" + glob_diff(g1, g2).replace(" ", "-"),
                          "after seed(%r) the %s differs between two histories" % (s, glob_diff(g1, g2))))
     elif o1 != o2:
-        findings.append(("seeded:bit-identical-outputs", _seeded_cls(program, o1, o2),
+        findings.append(("seeded:bit-identical-outputs", _seeded_cls(program, o1, o2, case.get("pin") is not None),
                          "seed(%r); program [%s] gave different outputs after two different histories: %s" % (s, fam, first_diff(o1, o2))))
     elif e1 != e2:
-        findings.append(("seeded:same-stream-consumption", _seeded_cls(program),
+        findings.append(("seeded:same-stream-consumption", _seeded_cls(program, pinned=case.get("pin") is not None),
                          "seed(%r); program [%s]: equal outputs but the %s left behind differs (any longer program diverges)" % (
                              s, fam, glob_diff(e1, e2))))
     return dict(findings=findings, nontrivial=(o1 != o3))
 
 
-def _seeded_cls(program, o1=None, o2=None):
+def _seeded_cls(program, o1=None, o2=None, pinned=False):
     """class of a seeded-clause failure: the first call of the program whose
     own outcome differs (later calls merely inherit the divergence)"""
     fams = sorted({ALGOS[o["algo"]][2] for o in program if o["op"] == "opt"} - {"hillclimber"})
+    if pinned and fams:
+        # guarded twin: pymoo's OS entropy is held constant, so this is NOT the 'wrapper never seeds pymoo' class
+        return "ga-seeded-irreproducible-with-pymoo-entropy-pinned:" + "+".join(o["algo"] for o in program if o["op"] == "opt")
     if "pymoo-addon" in fams or "pymoo-native" in fams:
         return "ga-seeded-irreproducible"          # pymoo backed GA / NSGA wrappers under the global seed
     if "deap" in fams:
@@ -831,9 +834,10 @@ def _seeded_cls(program, o1=None, o2=None):
 
 
 def eval_explicit(case):
-    """EXPLICIT clause on one op (possibly repeated) with the caller's generator"""
+    """EXPLICIT clause on one op (possibly repeated) with the caller's generator:
+    isolation of both executions and determinism between them"""
     U = universe(case["pop"])
-    op, mode, check = case["call"], case["mode"], case["check"]
+    op, mode = case["call"], case["mode"]
     program = [op]
     fam = _op_family(op)
     findings = []
@@ -848,13 +852,7 @@ def eval_explicit(case):
         o1 = canon(run_program(U, program, gen, dict(cache) if cache is not None else None))
         E1 = canon(gen_state(gen))
         G1b = glob_state()
-        if check == "isolation":
-            if G1 != G1b:
-                findings.append(("explicit:global-streams-untouched", _isolation_cls(op),
-                                 "%s called with its own %s generator changed the %s" % (fam, case["gkind"], glob_diff(G1, G1b))))
-            return dict(findings=findings, nontrivial=(canon(S) != E1))
-        # determinism: second execution from the same generator state under different global streams,
-        # with unrelated calls interleaved
+        # second execution from the same generator state under different global streams
         do_noise(U, case["noise2"])
         if mode == "fresh-gen":
             gen2 = make_gen(case["gkind"], case["gseed"])
@@ -862,22 +860,46 @@ def eval_explicit(case):
             gen2 = gen
             set_gen_state(gen2, S)
         inter = case.get("inter") or []
-
-        def between(i):
-            do_noise(U, inter)
-        o2 = canon(run_program(U, program, gen2, dict(cache) if cache is not None else None, between if inter else None))
+        G2 = glob_state()
+        o2 = canon(run_program(U, program, gen2, dict(cache) if cache is not None else None))
         E2 = canon(gen_state(gen2))
+        G2b = glob_state()
+        o3 = E3 = None
+        if inter:
+            # third execution with unrelated calls interleaved between the individual calls
+            def between(i):
+                do_noise(U, inter)
+            gen3 = make_gen(case["gkind"], case["gseed"]) if mode == "fresh-gen" else gen
+            set_gen_state(gen3, S)
+            o3 = canon(run_program(U, program, gen3, dict(cache) if cache is not None else None, between))
+            E3 = canon(gen_state(gen3))
+    if G1 != G1b or G2 != G2b:
+        d = glob_diff(G1, G1b) or glob_diff(G2, G2b)
+        findings.append(("explicit:global-streams-untouched", _isolation_cls(op, U),
+                         "%s called with its own %s generator changed the %s" % (fam, case["gkind"], d)))
     if o1 != o2:
-        findings.append(("explicit:result-depends-only-on-generator", _determinism_cls(op),
+        findings.append(("explicit:result-depends-only-on-generator", _determinism_cls(op, first_diff(o1, o2)),
                          "%s with a %s generator in the same state (%s) gave different results under different global stream "
                          "states: %s" % (fam, case["gkind"], mode, first_diff(o1, o2))))
     elif E1 != E2:
         findings.append(("explicit:same-consumption", _determinism_cls(op),
                          "%s: equal results but the caller's generator ends in different states (%s)" % (fam, mode)))
+    elif o3 is not None and (o1 != o3 or E1 != E3):
+        findings.append(("explicit:interleaving-irrelevant", _determinism_cls(op),
+                         "%s with a %s generator in the same state (%s) gave a different result when unrelated stochastic calls "
+                         "were interleaved: %s" % (fam, case["gkind"], mode, first_diff(o1, o3))))
     return dict(findings=findings, nontrivial=(canon(S) != E1))
 
 
-def _isolation_cls(op):
+def _rs_problem_draws_global(U, op):
+    """does RandomSubsetSelection(rng=g).problem(...) on its own touch the global streams?"""
+    sel = _select_build(U, op, make_gen("PCG64", 0))
+    g0 = glob_state()
+    sel.problem(U.pg, None, None, U.bv, None, 0, 1)
+    return g0 != glob_state()
+
+
+def _isolation_cls(op, U=None):
     if op["op"] == "opt":
         fam = ALGOS[op["algo"]][2]
         if fam == "pymoo-addon":
@@ -886,13 +908,13 @@ def _isolation_cls(op):
             return "deap-ga-python-random"              # legacy deap GA selects with the python global stream
         return "explicit-rng-touches-globals:" + op["algo"]
     if op["op"] == "select":
-        if op["proto"] == "random":
-            return "randomselection-problem-global-prng"
-        return "selproto-config-rng-none"
+        if op["proto"] == "random" and U is not None and _rs_problem_draws_global(U, op):
+            return "randomselection-problem-global-prng"    # problem() draws its random breeding values from global_prng
+        return "selproto-config-rng-none"                   # select() builds the configuration with rng=None
     return "explicit-rng-touches-globals:" + _op_family(op)
 
 
-def _determinism_cls(op):
+def _determinism_cls(op, diff=""):
     if op["op"] == "opt":
         fam = ALGOS[op["algo"]][2]
         if fam in ("pymoo-addon", "pymoo-native"):
@@ -901,8 +923,10 @@ def _determinism_cls(op):
             return "deap-ga-python-random"
         return "explicit-rng-not-sole-entropy:" + op["algo"]
     if op["op"] == "select":
-        if op["proto"] == "random":
-            return "randomselection-problem-global-prng"
+        if ".decn" in (diff or ""):
+            if op["proto"] == "random":
+                return "randomselection-problem-global-prng"    # already the decision vector differs
+            return "explicit-rng-not-sole-entropy:select:%s:decision-vector" % op["proto"]
         return "selproto-config-rng-none"
     return "explicit-rng-not-sole-entropy:" + _op_family(op)
 
@@ -943,13 +967,11 @@ def eval_operator(case):
     o1 = canon(call(g))
     G1b = glob_state()
     nontrivial = (G1 != G1b) or (S != canon(gen_state(g)))       # the operator drew from somewhere
-    if case["check"] == "isolation":
-        if G1 != G1b:
-            findings.append(("explicit:global-streams-untouched", "pymoo-addon-global-numpy",
-                             "pymoo_addon.%s.do(random_state=<own generator>) changed the %s" % (name, glob_diff(G1, G1b))))
-        return dict(findings=findings, nontrivial=nontrivial)
     do_noise(U, case["noise2"])
     o2 = canon(call(make_gen(case["gkind"], case["gseed"])))
+    if G1 != G1b:
+        findings.append(("explicit:global-streams-untouched", "pymoo-addon-global-numpy",
+                         "pymoo_addon.%s.do(random_state=<own generator>) changed the %s" % (name, glob_diff(G1, G1b))))
     if o1 != o2:
         findings.append(("explicit:result-depends-only-on-generator", "pymoo-addon-global-numpy",
                          "pymoo_addon.%s.do(random_state=g) with g in the same state gave different results under different "
@@ -1023,7 +1045,7 @@ SEEDED_KINDS = ["mate", "mate", "phenotype", "phenotype", "sus", "tiled_choice",
 
 
 def gen_seeded_cases(rnd, tier):
-    ncase = 220 if tier == "quick" else 2600
+    ncase = 600 if tier == "quick" else 12000
     # every kind alone first (so that one broken component is attributed to itself), then mixed programs
     singles = sorted(set(SEEDED_KINDS))
     for i in range(ncase):
@@ -1043,7 +1065,7 @@ def gen_seeded_cases(rnd, tier):
 @unit(P, "ring[seeded programs: reseed => bit-identical]", "R", bounded=True,
       note="bounded: programs of <= 6 calls (x <= 3 repeats) out of 7 mating protocols, G_E_Phenotyping, 4 sampling functions, "
            "8 selection configurations, select(), hill-climbers, spawn, prng functions, apply_jitter, EMBV, random-selection "
-           "problem; <= 8 taxa, <= 7 markers, <= 3 traits; 220 (quick) / 2600 (thorough) programs, two random histories each; "
+           "problem; <= 8 taxa, <= 7 markers, <= 3 traits; 600 (quick) / 12000 (thorough) programs, two random histories each; "
            "seeds from a 15-value edge list and 48-bit random")
 def u_seeded(ctx):
     ctx.rule = ("random programs (VERIF_SEED) of stochastic API calls; each is run after history1;seed(s) and after history2;seed(s) "
@@ -1061,7 +1083,7 @@ EXPLICIT_KINDS = ["mate", "phenotype", "sus", "tiled_choice", "axis_shuffle", "o
 
 
 def gen_explicit_cases(rnd, tier):
-    ncase = 520 if tier == "quick" else 6000
+    ncase = 1200 if tier == "quick" else 20000
     comps = [("mate", p) for p in sorted(MATE)] + [("phenotype", None)] + [(k, None) for k in ("sus", "tiled_choice", "axis_shuffle", "outcross_shuffle")] \
         + [("cfg", k) for k in CFG_KINDS] + [("hc", "SteepestDescentSubsetHillClimber"), ("hc", "UnconstrainedSteepestAscentSetHillClimber")]
     for i in range(ncase):
@@ -1071,11 +1093,10 @@ def gen_explicit_cases(rnd, tier):
             op = gen_op(rnd, pop, [kind])
             if sub is None or op.get("proto") == sub or op.get("kind") == sub or op.get("algo") == sub:
                 break
-        check = "isolation" if (i // len(comps)) % 3 == 0 else "determinism"
         mode = rnd.choice(["fresh-gen", "same-gen", "same-obj"])
         if op["op"] not in ("mate", "phenotype", "cfg", "opt"):
             mode = rnd.choice(["fresh-gen", "same-gen"])
-        yield dict(clause="explicit", pop=pop, call=op, check=check, mode=mode, gkind=rnd.choice(GEN_KINDS), gseed=rnd.randrange(10 ** 6),
+        yield dict(clause="explicit", pop=pop, call=op, mode=mode, gkind=rnd.choice(GEN_KINDS), gseed=rnd.randrange(10 ** 6),
                    noise1=gen_noise(rnd, pop, maxlen=3), noise2=[dict(k="np", fn="random", n=rnd.randrange(1, 4)),
                                                                  dict(k="py", fn="random", n=rnd.randrange(1, 4))] + gen_noise(rnd, pop, maxlen=3),
                    inter=gen_noise(rnd, pop, maxlen=2) if rnd.random() < 0.5 else [])
@@ -1083,15 +1104,15 @@ def gen_explicit_cases(rnd, tier):
 
 @unit(P, "ring[explicit generator: isolation and determinism per component]", "R", bounded=True,
       note="bounded: 23 components (7 mating protocols, G_E_Phenotyping, 4 sampling functions, 8 selection configurations, 2 "
-           "hill-climbers) x {PCG64, MT19937, Philox, SFC64 Generators, RandomState}; <= 8 taxa, <= 7 markers; 520 (quick) / "
-           "6000 (thorough) calls; modes fresh generator / same generator restored / same protocol object")
+           "hill-climbers) x {PCG64, MT19937, Philox, SFC64 Generators, RandomState}; <= 8 taxa, <= 7 markers; 1200 (quick) / "
+           "20000 (thorough) calls; modes fresh generator / same generator restored / same protocol object")
 def u_explicit(ctx):
-    ctx.rule = ("round-robin over the components, random valid arguments; isolation: python and numpy global states compared exactly "
-                "before/after the call; determinism: executed twice from the same generator state with different global stream "
-                "states and unrelated calls interleaved, outcomes and generator end states compared bit for bit; non-trivial if "
-                "the call advanced the caller's generator")
+    ctx.rule = ("round-robin over the components, random valid arguments; every call is executed twice (three times when unrelated "
+                "calls are interleaved) from the same generator state under different global stream states; isolation: python "
+                "and numpy global states compared exactly before/after each execution; determinism: outcomes and generator end "
+                "states compared bit for bit; non-trivial if the call advanced the caller's generator")
     drive(ctx, gen_explicit_cases(ctx.rng, ctx.tier),
-          lambda c: dict(call=_op_family(c["call"]), check=c["check"], mode=c["mode"], gkind=c["gkind"]))
+          lambda c: dict(call=_op_family(c["call"]), mode=c["mode"], gkind=c["gkind"]))
 
 
 # ---------------------------------------------------------------------------
@@ -1119,14 +1140,14 @@ def gen_opt_cases(rnd, tier, pin):
     pop = dict(n=2, p=1, t=1, seed=0)
     for r in range(rounds):
         for name in names:
-            for check in ("seeded", "isolation", "determinism"):
+            for check in ("seeded", "explicit"):
                 op = _opt_op(rnd, name)
                 pv = None if pin is None else rnd.randrange(10 ** 6)
                 if check == "seeded":
                     yield dict(clause="seeded", pop=pop, seed=gen_seed(rnd), program=[op], hist1=gen_noise(rnd, pop, maxlen=2),
                                hist2=gen_noise(rnd, pop, maxlen=3), persist=False, pin=pv, attempts=3 if pin is None else 1)
                 elif pin is None:
-                    yield dict(clause="explicit", pop=pop, call=op, check=check, mode=rnd.choice(["fresh-gen", "same-gen", "same-obj"]),
+                    yield dict(clause="explicit", pop=pop, call=op, mode=rnd.choice(["fresh-gen", "same-gen", "same-obj"]),
                                gkind=rnd.choice(GEN_KINDS), gseed=rnd.randrange(10 ** 6), noise1=gen_noise(rnd, pop, maxlen=2),
                                noise2=[dict(k="np", fn="random", n=1), dict(k="py", fn="random", n=1)] + gen_noise(rnd, pop, maxlen=2),
                                inter=[], pin=None, attempts=3)
@@ -1134,16 +1155,16 @@ def gen_opt_cases(rnd, tier, pin):
 
 def _opt_sample(c):
     op = c["program"][0] if c["clause"] == "seeded" else c["call"]
-    return dict(algo=op["algo"], check=c.get("check", "seeded"), ngen=op["ngen"], pop=op["pop"])
+    return dict(algo=op["algo"], clause=c["clause"], ngen=op["ngen"], pop=op["pop"])
 
 
 @unit(P, "ring[optimiser wrappers: seeded and explicit rng]", "R", bounded=True,
       note="bounded: 13 pymoo-backed GA/NSGA wrappers + 2 legacy deap GAs, ngen <= 5, population <= 12, <= 5 decision variables "
-           "(<= 7 binary); 4 (quick) / 60 (thorough) rounds x 3 checks per wrapper")
+           "(<= 7 binary); 4 (quick) / 60 (thorough) rounds x 2 clauses per wrapper")
 def u_opt(ctx):
     ctx.rule = ("per wrapper: (seeded) history1;seed(s);minimize vs history2;seed(s);minimize on a problem that records every decision "
-                "vector it is asked to evaluate; (isolation) explicit rng => global streams untouched; (determinism) same explicit "
-                "generator state twice => identical solution and evaluation trace")
+                "vector it is asked to evaluate; (explicit) rng=g => global streams untouched and the same generator state twice => "
+                "identical solution and evaluation trace")
     drive(ctx, gen_opt_cases(ctx.rng, ctx.tier, None), _opt_sample)
 
 
@@ -1161,14 +1182,14 @@ def u_opt_pinned(ctx):
 # unit 4: selection protocols with an explicit rng
 
 def gen_select_cases(rnd, tier):
-    ncase = 80 if tier == "quick" else 1500
+    ncase = 200 if tier == "quick" else 3000
     for i in range(ncase):
         pop = gen_pop(rnd)
         pop["n"] = rnd.choice([4, 5, 6, 8])
         nc, npar = rnd.choice([(1, 2), (2, 1), (2, 2), (1, 3), (3, 1)])
         proto = ["ebv", "ebv", "ebv", "random"][i % 4]
         op = dict(op="select", proto=proto, soalgo=rnd.choice(["hc", "sorting"]), ncross=nc, nparent=npar, nprogeny=rnd.choice([1, 2]), reps=rnd.choice([1, 2]))
-        yield dict(clause="explicit", pop=pop, call=op, check=["isolation", "determinism"][(i // 4) % 2],
+        yield dict(clause="explicit", pop=pop, call=op,
                    mode=rnd.choice(["fresh-gen", "same-gen", "same-obj"]), gkind=rnd.choice(GEN_KINDS), gseed=rnd.randrange(10 ** 6),
                    noise1=gen_noise(rnd, pop, maxlen=2), noise2=[dict(k="np", fn="random", n=rnd.randrange(1, 4))] + gen_noise(rnd, pop, maxlen=2),
                    inter=[])
@@ -1176,23 +1197,23 @@ def gen_select_cases(rnd, tier):
 
 @unit(P, "ring[selection protocol select() with explicit rng]", "R", bounded=True,
       note="bounded: EstimatedBreedingValueSubsetSelection and RandomSubsetSelection with hill-climber single-objective solvers "
-           "(the solver gets the same explicit generator), <= 8 taxa, <= 3 crosses x <= 3 parents; 80 (quick) / 1500 (thorough) calls")
+           "(the solver gets the same explicit generator), <= 8 taxa, <= 3 crosses x <= 3 parents; 200 (quick) / 3000 (thorough) calls")
 def u_select(ctx):
     ctx.rule = ("select() of a protocol constructed with rng=g: decision vector, the configuration's sampled cross configuration and "
                 "a re-sampled one must depend on g only and the global streams must be untouched")
     drive(ctx, gen_select_cases(ctx.rng, ctx.tier),
-          lambda c: dict(proto=c["call"]["proto"], soalgo=c["call"]["soalgo"], check=c["check"], gkind=c["gkind"]))
+          lambda c: dict(proto=c["call"]["proto"], soalgo=c["call"]["soalgo"], mode=c["mode"], gkind=c["gkind"]))
 
 
 # ---------------------------------------------------------------------------
 # unit 5: custom pymoo operators called through pymoo's random_state protocol
 
 def gen_operator_cases(rnd, tier):
-    ncase = 60 if tier == "quick" else 1200
+    ncase = 120 if tier == "quick" else 3000
     ops = ["SubsetRandomSampling", "ReducedExchangeCrossover", "ReducedExchangeMutation"]
     for i in range(ncase):
         nd = rnd.choice([2, 3, 4])
-        yield dict(clause="operator", operator=ops[i % 3], check="isolation" if (i // 3) % 2 == 0 else "determinism", nobj=rnd.choice([1, 2]),
+        yield dict(clause="operator", operator=ops[i % 3], nobj=rnd.choice([1, 2]),
                    ndecn=nd, nspace=2 * nd + rnd.choice([1, 2, 4]), npop=rnd.choice([4, 6]), xseed=rnd.randrange(1000),
                    gkind=rnd.choice(GEN_KINDS[:4]), gseed=rnd.randrange(10 ** 6),
                    noise1=[dict(k="npseed", s=rnd.randrange(1000))], noise2=[dict(k="npseed", s=1000 + rnd.randrange(1000))])
@@ -1200,11 +1221,11 @@ def gen_operator_cases(rnd, tier):
 
 @unit(P, "ring[pymoo_addon operators honour random_state]", "R", bounded=True,
       note="bounded: SubsetRandomSampling, ReducedExchangeCrossover, ReducedExchangeMutation; <= 4 decision variables, set space "
-           "<= 12, population <= 6; 60 (quick) / 1200 (thorough) calls")
+           "<= 12, population <= 6; 120 (quick) / 3000 (thorough) calls")
 def u_operator(ctx):
     ctx.rule = ("operator invoked the way pymoo does (random_state=g): global numpy/python states unchanged and the result a function "
                 "of g's state only (two different numpy.random.seed values in between)")
-    drive(ctx, gen_operator_cases(ctx.rng, ctx.tier), lambda c: dict(operator=c["operator"], check=c["check"]))
+    drive(ctx, gen_operator_cases(ctx.rng, ctx.tier), lambda c: dict(operator=c["operator"], gkind=c["gkind"], ndecn=c["ndecn"], nspace=c["nspace"]))
 
 
 REPLAYERS = {
